@@ -272,7 +272,7 @@ def run(tier):
     ck.anchor(len(externs(fx)) >= 60, "extern \"C\" #[no_mangle] functions (found %d)" % len(externs(fx)))
     nuses = null_rule(fx, ck)
     ck.note("R1 examined %d valid-pointer uses" % nuses)
-    if nuses < 20:
+    if nuses < 10:
         ck.closed_fail.append("R1 saw only %d valid-pointer uses (hand count: 25+)" % nuses)
     header_rule(fx, ck)
     guard_rule(fx, ck)
